@@ -27,7 +27,7 @@ func concatBindings(L *Loaded) map[string]string {
 			if !ok || len(call.Args) == 0 {
 				return true
 			}
-			if fn := Callee(cp.TypesInfo, call); fn == nil || fn.Name() != "declareExternalRuntimeFunction" {
+			if fn := Callee(cp.TypesInfo, call); fn == nil || !nameIs(fn, "declareExternalRuntimeFunction") {
 				return true
 			}
 			if bl, ok := call.Args[0].(*ast.BasicLit); ok && bl.Kind == token.STRING {
